@@ -465,6 +465,17 @@ pub fn apply_mut(es: &mut Vec<ProvenanceEntry>, m: &Mut) -> Result<(), String> {
             "e.ptick" => e.parents.iter_mut().for_each(|p| p.worldline_tick = WorldlineTick::from_raw(m.a)),
             "e.pwl" => e.parents.iter_mut().for_each(|p| p.worldline_id = other_wl),
             "e.pdrop" => e.parents.clear(),
+            // multi-parent entries: two refs (to tick 0 of the same worldline) in descending / ascending /
+            // equal commit-hash order (`NonCanonicalParents`, then parent resolution)
+            "e.p2.desc" | "e.p2.asc" | "e.p2.dup" => {
+                let r = |h: Id| ProvenanceRef { worldline_id: e.worldline_id, worldline_tick: WorldlineTick::from_raw(0), commit_hash: h };
+                let (lo, hi) = (garbage(m.a % 200), garbage(m.a % 200 + 1));
+                e.parents = match m.kind.as_str() {
+                    "e.p2.desc" => vec![r(hi), r(lo)],
+                    "e.p2.asc" => vec![r(lo), r(hi)],
+                    _ => vec![r(lo), r(lo)],
+                };
+            }
             "e.tick" => e.worldline_tick = WorldlineTick::from_raw(m.a),
             "e.wl" => e.worldline_id = other_wl,
             "e.gtick" => e.commit_global_tick = GlobalTick::from_raw(m.a),
@@ -573,6 +584,202 @@ pub fn apply_mut(es: &mut Vec<ProvenanceEntry>, m: &Mut) -> Result<(), String> {
         }
         "trunc" => es.truncate(i),
         _ => {}
+    }
+    Ok(())
+}
+
+// ------------------------------------------------------------------ checkpoint tampering (`cpt`)
+
+/// Every checkpoint-tamper kind of the catalogue: (kind, takes a tick_history index).
+pub const CP_TAMPERS: [(&str, bool); 50] = [
+    ("hash", false), ("g", false), ("g.unreach", false), ("s0", false), ("warp", false), ("rootid", false),
+    ("txc", false), ("lm.add", false), ("lm.drop", false), ("lm.data", false), ("ci", false), ("lme", false),
+    ("ls.none", false), ("ls.some", false), ("ls.hash", false), ("ls.sroot", false), ("ls.parents", false),
+    ("ls.plan", false), ("ls.decision", false), ("ls.rewrites", false), ("ls.pdig", false), ("ls.policy", false),
+    ("ls.tx", false), ("ls.key", false),
+    ("th.drop", false), ("th.dup", false), ("th.swap", true),
+    ("th.s.hash", true), ("th.s.sroot", true), ("th.s.parents", true), ("th.s.plan", true), ("th.s.decision", true),
+    ("th.s.rewrites", true), ("th.s.pdig", true), ("th.s.policy", true), ("th.s.tx", true), ("th.s.key", true),
+    ("th.r.tx", true), ("th.r.entry", true), ("th.r.empty", true),
+    ("th.p.policy", true), ("th.p.rulepack", true), ("th.p.status", true), ("th.p.op.add", true), ("th.p.op.drop", true),
+    ("th.p.in.add", true), ("th.p.out.add", true), ("th.p.in.drop", true), ("th.p.out.drop", true), ("th.p.digest", true),
+];
+
+fn snap_mut(s: &mut warp_core::Snapshot, f: &str, a: u64) -> Result<(), String> {
+    let g = garbage(a);
+    match f {
+        "hash" => s.hash = g,
+        "sroot" => s.state_root = g,
+        "parents" => {
+            if s.parents.is_empty() {
+                s.parents.push(g)
+            } else {
+                s.parents.clear()
+            }
+        }
+        "plan" => s.plan_digest = other_id(a),
+        "decision" => s.decision_digest = g,
+        "rewrites" => s.rewrites_digest = other_id(a),
+        "pdig" => s.patch_digest = g,
+        "policy" => s.policy_id = 7 + a as u32,
+        "tx" => s.tx = TxId::from_raw(a),
+        "key" => s.root.local_id = NodeId(other_id(0)),
+        o => return Err(format!("bad snapshot field {o}")),
+    }
+    Ok(())
+}
+
+fn rcpt_mut(r: &mut TickReceipt, f: &str, a: u64) -> Result<(), String> {
+    let o = other_id(0);
+    *r = match f {
+        "tx" => {
+            let parts: Vec<TickReceiptEntry> = r.entries().to_vec();
+            let blocked = vec![Vec::new(); parts.len()];
+            TickReceipt::try_from_retained_parts(TxId::from_raw(a), parts, blocked).map_err(|e| format!("{e:?}"))?
+        }
+        "entry" => receipt_of([0u8; 32], r.tx().value(), &[(o, o, o, 1 + 2 * (a % 2))])?,
+        "empty" => receipt_of([0u8; 32], r.tx().value(), &[])?,
+        o => return Err(format!("bad receipt field {o}")),
+    };
+    Ok(())
+}
+
+fn rpatch_mut(p: &mut WarpTickPatchV1, f: &str, a: u64, warp: WarpId) -> Result<(), String> {
+    let (mut pol, mut rp, mut st) = (p.policy_id(), p.rule_pack_id(), p.commit_status());
+    let (mut ins, mut outs, mut ops) = (p.in_slots().to_vec(), p.out_slots().to_vec(), p.ops().to_vec());
+    let extra = NodeKey { warp_id: warp, local_id: NodeId(other_id(a)) };
+    let ai = a as usize;
+    match f {
+        "policy" => pol = 7 + a as u32,
+        "rulepack" => rp = other_id(a),
+        "status" => st = TickCommitStatus::Aborted,
+        "op.add" => ops.push(WarpOp::UpsertNode { node: extra, record: NodeRecord { ty: TypeId(other_id(0)) } }),
+        "op.drop" => {
+            if ai < ops.len() {
+                ops.remove(ai);
+            }
+        }
+        "in.add" => ins.push(SlotId::Node(extra)),
+        "out.add" => outs.push(SlotId::Node(extra)),
+        "in.drop" => {
+            if ai < ins.len() {
+                ins.remove(ai);
+            }
+        }
+        "out.drop" => {
+            if ai < outs.len() {
+                outs.remove(ai);
+            }
+        }
+        "digest" => {
+            warp_core::echo_verif::c05::set_patch_digest(p, garbage(a));
+            return Ok(());
+        }
+        o => return Err(format!("bad replay-patch field {o}")),
+    }
+    *p = WarpTickPatchV1::new(pol, rp, st, ins, outs, ops);
+    Ok(())
+}
+
+/// ONE alteration of a retained field of a checkpoint (mirrors `tamperCp` in Driver/ChainIO.lean).
+pub fn tamper_cp(cp: &mut ReplayCheckpoint, kind: &str, j: usize, a: u64, wl: Id) -> Result<(), String> {
+    use warp_core::echo_verif::c05 as hk;
+    let g = garbage(a);
+    let o = other_id(0);
+    if kind == "none" {
+        return Ok(());
+    }
+    if kind == "hash" {
+        cp.checkpoint.state_hash = g;
+        return Ok(());
+    }
+    let root = *cp.state.root();
+    let warp = cp.state.initial_state().store(&root.warp_id).map_or(root.warp_id, |s| s.warp_id());
+    let p = hk::state_parts(&mut cp.state);
+    let att = Some(AttachmentValue::Atom(AtomPayload::new(TypeId(o), vec![a as u8].into())));
+    match kind {
+        "g" => {
+            if let Some(s) = p.warp_state.store_mut(&root.warp_id) {
+                s.set_node_attachment(root.local_id, att);
+            }
+        }
+        "g.unreach" => {
+            if let Some(s) = p.warp_state.store_mut(&root.warp_id) {
+                s.insert_node(NodeId(other_id(a)), NodeRecord { ty: TypeId(o) });
+            }
+        }
+        "s0" => {
+            if let Some(s) = p.initial_state.store_mut(&root.warp_id) {
+                s.set_node_attachment(root.local_id, att);
+            }
+        }
+        "warp" => p.root.warp_id = WarpId(o),
+        "rootid" => p.root.local_id = NodeId(o),
+        "txc" => *p.tx_counter = a,
+        "lm.add" => p.last_materialization.push(warp_core::materialization::FinalizedChannel { channel: TypeId(o), data: vec![a as u8] }),
+        "lm.drop" => {
+            p.last_materialization.pop();
+        }
+        "lm.data" => {
+            if let Some(c) = p.last_materialization.first_mut() {
+                c.data.push(a as u8)
+            }
+        }
+        "ls.none" => *p.last_snapshot = None,
+        "ls.some" => {
+            if p.last_snapshot.is_none() {
+                *p.last_snapshot = Some(warp_core::Snapshot {
+                    root,
+                    hash: g,
+                    state_root: g,
+                    parents: Vec::new(),
+                    plan_digest: g,
+                    decision_digest: g,
+                    rewrites_digest: g,
+                    patch_digest: g,
+                    policy_id: 0,
+                    tx: TxId::from_raw(1),
+                })
+            }
+        }
+        "ci" => {
+            p.committed_ingress.insert((head_key(wl), g));
+        }
+        "lme" => p.last_materialization_errors.push(hk::channel_conflict(o, 2)),
+        "th.drop" => {
+            p.tick_history.pop();
+        }
+        "th.dup" => {
+            if let Some(x) = p.tick_history.last().cloned() {
+                p.tick_history.push(x)
+            }
+        }
+        "th.swap" => {
+            if j + 1 < p.tick_history.len() {
+                p.tick_history.swap(j, j + 1)
+            }
+        }
+        k => {
+            if let Some(f) = k.strip_prefix("ls.") {
+                if let Some(s) = p.last_snapshot.as_mut() {
+                    snap_mut(s, f, a)?
+                }
+            } else if let Some(f) = k.strip_prefix("th.s.") {
+                if let Some(x) = p.tick_history.get_mut(j) {
+                    snap_mut(&mut x.0, f, a)?
+                }
+            } else if let Some(f) = k.strip_prefix("th.r.") {
+                if let Some(x) = p.tick_history.get_mut(j) {
+                    rcpt_mut(&mut x.1, f, a)?
+                }
+            } else if let Some(f) = k.strip_prefix("th.p.") {
+                if let Some(x) = p.tick_history.get_mut(j) {
+                    rpatch_mut(&mut x.2, f, a, warp)?
+                }
+            } else {
+                return Err(format!("bad checkpoint tamper {k}"));
+            }
+        }
     }
     Ok(())
 }
@@ -715,6 +922,8 @@ pub enum SOp {
     New(bool, u64),
     Cp(u64, u64, u64),
     Cpo(u64, u64, u64),
+    /// tampered checkpoint: (claimed tick, state tick, field kind, index, argument)
+    Cpt(u64, u64, String, u64, u64),
     Fork(u64),
     Replay(u64),
     Ext(u64),
@@ -746,6 +955,7 @@ pub fn parse_sops(t: &mut Toks) -> Result<Vec<SOp>, String> {
             }
             "cp" => SOp::Cp(t.num()?, t.num()?, t.num()?),
             "cpo" => SOp::Cpo(t.num()?, t.num()?, t.num()?),
+            "cpt" => SOp::Cpt(t.num()?, t.num()?, t.next()?.to_string(), t.num()?, t.num()?),
             "fork" => SOp::Fork(t.num()?),
             "replay" => SOp::Replay(t.num()?),
             "ext" => SOp::Ext(t.num()?),
@@ -880,6 +1090,24 @@ pub fn run_sop(r: &mut Run, op: &SOp) -> Obs {
             };
             Obs { ok_at: None, state: None, wl, text }
         }
+        SOp::Cpt(claim, state_tick, kind, j, a) => {
+            let src = r.orig.replay_worldline_state_at(WorldlineId::from_bytes(r.hist.wl), &r.base, wt(*state_tick));
+            let text = match src {
+                Err(e) => format!("cp-src:{}", replay_err(&e)),
+                Ok(w) => {
+                    let mut cp = ReplayCheckpoint::from_state(&w);
+                    cp.checkpoint.worldline_tick = wt(*claim);
+                    match tamper_cp(&mut cp, kind, *j as usize, *a, r.hist.wl) {
+                        Err(e) => format!("cpt-bad:{e}"),
+                        Ok(()) => match r.svc.add_checkpoint(wl, cp) {
+                            Ok(()) => "cp-ok".into(),
+                            Err(e) => format!("cp-{}", hist_err(&e)),
+                        },
+                    }
+                }
+            };
+            Obs { ok_at: None, state: None, wl, text }
+        }
         SOp::Fork(k) => {
             let new = WorldlineId::from_bytes(small_id(0xF0 + r.nforks));
             let text = match r.svc.fork(wl, wt(*k), new) {
@@ -975,7 +1203,10 @@ pub fn state_dump(w: &WorldlineState) -> String {
         .iter()
         .map(|(s, r, p)| {
             format!(
-                "{}/{}/{}/{}/{}/{}/{}/{}/{}/{}",
+                "{}/{}/{:?}/{}/{}/{}/{}/{}/{}/{}/{}/{}/{}/{:?}",
+                s.policy_id,
+                hex(&s.root.local_id.0),
+                p.commit_status(),
                 hex(&s.hash),
                 hex(&s.state_root),
                 hex(&s.patch_digest),
@@ -985,14 +1216,17 @@ pub fn state_dump(w: &WorldlineState) -> String {
                 hex(&s.rewrites_digest),
                 s.tx.value(),
                 hex(&r.digest()),
-                hex(&p.digest())
+                hex(&p.digest()),
+                r.tx()
             )
         })
         .collect();
     let lm: Vec<(Id, Vec<u8>)> = w.last_materialization().iter().map(|c| (c.channel.0, c.data.clone())).collect();
     format!(
-        "root={} tick={} hist=[{}] ls={} lm={} lme={}",
+        "root={} txc={} ls={:?} tick={} hist=[{}] ls={} lm={} lme={}",
         hex(&w.state_root()),
+        warp_core::echo_verif::c05::tx_counter(w),
+        w.last_snapshot(),
         w.current_tick().as_u64(),
         hist.join(","),
         w.last_snapshot().map_or("-".into(), |s| hex(&s.hash)),
@@ -1092,6 +1326,7 @@ fn oracle_seek(t: &mut Toks, _tier: Tier) -> Result<OracleOut, String> {
         }
         match op {
             SOp::Cp(..) | SOp::Cpo(..) => o.tags.push(format!("cp:{}", obs.text.split(':').next().unwrap_or(""))),
+            SOp::Cpt(_, _, k, _, _) => o.tags.push(format!("cpt:{}:{}", k.split('.').next().unwrap_or(""), obs.text.split(':').next().unwrap_or(""))),
             SOp::Fork(..) => o.tags.push(format!("fork:{}", if obs.text.starts_with("fork-ok") { "ok" } else { "err" })),
             SOp::Step => o.tags.push(format!("step:{}", obs.text.split('@').next().unwrap_or("").split(':').next().unwrap_or(""))),
             _ => {}
@@ -1261,7 +1496,7 @@ pub fn gen_hist(rng: &mut Rng, nticks: usize) -> HistS {
 
 pub fn sops_tok(ops: &[String]) -> String {
     // an element may hold several ops ("mode play step")
-    let n: usize = ops.iter().map(|o| 1 + o.matches(" step").count() + o.matches(" ext").count() + o.matches(" seek").count() + o.matches(" pin").count()).sum();
+    let n: usize = ops.iter().map(|o| 1 + o.matches(" step").count() + o.matches(" ext").count() + o.matches(" seek").count() + o.matches(" pin").count() + o.matches(" cpt").count() + o.matches(" replay").count()).sum();
     format!("{} {}", n, ops.join(" "))
 }
 
@@ -1283,7 +1518,15 @@ fn gen_seek(rng: &mut Rng, tier: Tier) -> Vec<String> {
         let nops = rng.range(5, 14);
         for _ in 0..nops {
             let t = rng.below(l + 2);
-            ops.push(match rng.below(20) {
+            ops.push(match rng.below(21) {
+                20 => {
+                    // a tampered checkpoint behind an honest one (its altered index before / after it)
+                    let m = 1 + rng.below(l);
+                    let k = rng.below(m + 1);
+                    let (kind, indexed) = *rng.pick(&CP_TAMPERS);
+                    let j = if indexed { rng.below(m) } else { 0 };
+                    format!("cp {k} {k} 0 cpt {m} {m} {kind} {j} {} replay {m} seek {}", l + 2 + rng.below(2), (m + rng.below(2)).min(l))
+                }
                 0..=7 => format!("seek {t}"),
                 8 | 9 | 10 => {
                     let c = rng.below(l + 1);
